@@ -1,0 +1,33 @@
+// Copyright 2025 Tetrate
+//
+// Licensed under the Apache License, Version 2.0 (the "License");
+// you may not use this file except in compliance with the License.
+// You may obtain a copy of the License at
+//
+//     http://www.apache.org/licenses/LICENSE-2.0
+//
+// Unless required by applicable law or agreed to in writing, software
+// distributed under the License is distributed on an "AS IS" BASIS,
+// WITHOUT WARRANTIES OR CONDITIONS OF ANY KIND, either express or implied.
+// See the License for the specific language governing permissions and
+// limitations under the License.
+
+//go:build verif
+
+package k8s
+
+import (
+	"sigs.k8s.io/controller-runtime/pkg/client"
+
+	configv1 "github.com/istio-ecosystem/authservice/config/gen/go/v1"
+)
+
+// NewSecretControllerForVerification builds a SecretController on the given namespace and client and runs
+// the start-up secret collection, exactly as PreRun does before it creates the controller manager.
+// Only compiled with the `verif` build tag; used by the external verification harness.
+func NewSecretControllerForVerification(cfg *configv1.Config, namespace string, k8sClient client.Client) (*SecretController, error) {
+	s := NewSecretController(cfg)
+	s.namespace = namespace
+	s.k8sClient = k8sClient
+	return s, s.loadSecrets()
+}
